@@ -13,6 +13,7 @@ namespace Srtla.KaTrace
 open Srtla Srtla.Gen Srtla.Conn Srtla.Link Srtla.Sys Srtla.Rtt Srtla.Uplink Srtla.Keepalive
 
 variable {F : Type} [Scalar F]
+variable {fa : List (Nat × Nat)}
 
 /-- The cadence clock is kept or cleared. -/
 def LksFrame (l l' : FLink F) : Prop :=
@@ -50,7 +51,7 @@ theorem pw_setAt (ls : List (FLink F)) (i : Nat) (l x : FLink F) (hl : ls[i]? = 
 
 omit [Scalar F] in
 theorem scb_lks (l : FLink F) (now : Nat) (fn : List Nat) :
-    (sendConnectionBatch l now fn).1.lastKeepaliveSent = l.lastKeepaliveSent := by
+    (sendConnectionBatch fa l now fn).1.lastKeepaliveSent = l.lastKeepaliveSent := by
   unfold sendConnectionBatch FLink.takeBatch
   dsimp only
   split <;> (try split) <;> (try split) <;> rfl
@@ -59,8 +60,8 @@ omit [Scalar F] in
 /-- A queued packet followed by an optional flush (send failure ⇒ `mark_for_recovery`). -/
 theorem queue_flush_frame (l : FLink F) (pkt : Sys.Bytes) (seq : Option Nat) (now : Nat) (fn : List Nat) :
     LksFrame l (l.queueDataPacket pkt seq now).1 ∧
-    LksFrame l (sendConnectionBatch (l.queueDataPacket pkt seq now).1 now fn).1 ∧
-    LksFrame l (sendConnectionBatch (l.queueDataPacket pkt seq now).1 now fn).1.markForRecovery :=
+    LksFrame l (sendConnectionBatch fa (l.queueDataPacket pkt seq now).1 now fn).1 ∧
+    LksFrame l (sendConnectionBatch fa (l.queueDataPacket pkt seq now).1 now fn).1.markForRecovery :=
   ⟨Or.inl rfl, Or.inl (scb_lks _ now fn), Or.inr rfl⟩
 
 omit [Scalar F] in
@@ -82,7 +83,7 @@ theorem forwardVia_frame (s : Sys F) (sel : Nat) (pkt : Sys.Bytes) (seq : Option
 
 omit [Scalar F] in
 theorem stallProbesGo_frame (pkt : Sys.Bytes) (seq : Option Nat) (now sel : Nat) (ls : List (FLink F))
-    (i : Nat) (fn : List Nat) : PW LksFrame ls (stallProbesGo pkt seq now sel ls i fn).1 := by
+    (i : Nat) (fn : List Nat) : PW LksFrame ls (stallProbesGo fa pkt seq now sel ls i fn).1 := by
   induction ls generalizing i fn with
   | nil => simp [stallProbesGo]; exact PW.nil
   | cons l rest ih =>
@@ -143,7 +144,7 @@ theorem handleSrtPacket_frame (s : Sys F) (pkt : Sys.Bytes) (now : Nat) :
 
 omit [Scalar F] in
 theorem flushGo_frame (now : Nat) (ls : List (FLink F)) (fn : List Nat) :
-    PW LksFrame ls (flushGo now ls fn).1 := by
+    PW LksFrame ls (flushGo fa now ls fn).1 := by
   induction ls generalizing fn with
   | nil => simp [flushGo]; exact PW.nil
   | cons l rest ih =>
@@ -223,6 +224,7 @@ theorem step_frame (s : Sys F) (e : Ev) (h : notHk e = true) (hnr : e.isReload =
   | setCfg cfg => exact pw_refl _
   | crit d => exact pw_refl _
   | failNext cid => exact pw_refl _
+  | failAfter cid kfa => exact pw_refl _
   | failBind cid => exact pw_refl _
   | stamp idx weak ld ccb cct => exact pw_stampLink (R := LksFrame) LksFrame.rfl' (fun _ _ _ _ _ => Or.inl rfl) _ _ _ _ _ _
   | syncTimeout => exact pw_syncTimeout (R := LksFrame) _ (fun _ => Or.inl rfl) _
@@ -290,7 +292,7 @@ theorem foldl_register_connId (q : List QItem) (c : Conn) :
 
 omit [Scalar F] in
 theorem scb_connId (l : FLink F) (now : Nat) (fn : List Nat) :
-    (sendConnectionBatch l now fn).1.core.connId = l.core.connId := by
+    (sendConnectionBatch fa l now fn).1.core.connId = l.core.connId := by
   have hq := foldl_register_connId l.queue l.core
   unfold sendConnectionBatch FLink.takeBatch
   dsimp only
@@ -318,7 +320,7 @@ theorem forwardVia_id (s : Sys F) (sel : Nat) (pkt : Sys.Bytes) (seq : Option Na
 
 omit [Scalar F] in
 theorem stallProbesGo_id (pkt : Sys.Bytes) (seq : Option Nat) (now sel : Nat) (ls : List (FLink F))
-    (i : Nat) (fn : List Nat) : PW IdFrame ls (stallProbesGo pkt seq now sel ls i fn).1 := by
+    (i : Nat) (fn : List Nat) : PW IdFrame ls (stallProbesGo fa pkt seq now sel ls i fn).1 := by
   induction ls generalizing i fn with
   | nil => simp [stallProbesGo]; exact PW.nil
   | cons l rest ih =>
@@ -385,7 +387,7 @@ theorem handleSrtPacket_id (s : Sys F) (pkt : Sys.Bytes) (now : Nat) :
 
 omit [Scalar F] in
 theorem flushGo_id (now : Nat) (ls : List (FLink F)) (fn : List Nat) :
-    PW IdFrame ls (flushGo now ls fn).1 := by
+    PW IdFrame ls (flushGo fa now ls fn).1 := by
   induction ls generalizing fn with
   | nil => simp [flushGo]; exact PW.nil
   | cons l rest ih =>
@@ -462,6 +464,7 @@ theorem step_id (s : Sys F) (e : Ev) (hnr : e.isReload = false) : PW IdFrame s.l
   | setCfg cfg => exact id_refl _
   | crit d => exact id_refl _
   | failNext cid => exact id_refl _
+  | failAfter cid kfa => exact id_refl _
   | failBind cid => exact id_refl _
   | stamp idx weak ld ccb cct => exact pw_stampLink (R := IdFrame) IdFrame.rfl' (fun _ _ _ _ _ => rfl) _ _ _ _ _ _
   | syncTimeout => exact pw_syncTimeout (R := IdFrame) _ (fun _ => rfl) _
